@@ -12,6 +12,7 @@ import Oas3Model.Driver.Cli
 import Oas3Model.Driver.Defaults
 import Oas3Model.Driver.Enum
 import Oas3Model.Driver.Cache
+import Oas3Model.Driver.Discr
 open Lean Oas3.Driver
 
 def allOps : List (String × Handler) := List.flatten [
@@ -28,6 +29,7 @@ def allOps : List (String × Handler) := List.flatten [
   Oas3.Driver.Defaults.ops,
   Oas3.Driver.Enum.ops,
   Oas3.Driver.Cache.ops,
+  Oas3.Driver.Discr.ops,
   []]
 
 def handleLine (line : String) : String :=
